@@ -34,6 +34,62 @@ theorem Rel.run {p : Params} (hp : p.RingOK) : ∀ (ops : List (Op α)) {r : Rin
     simp only [trace, Spec.trace, Backtrace.run, Spec.run]
     exact ⟨by rw [hs.2, this.1], this.2⟩
 
+/-! ### the two defect classes of the unrepaired ring, as decidable conditions on a history -/
+
+/-- every `store` of the history happens with a capacity ≠ 0 (excludes the class of F2) -/
+def storesAvoidCapZero : Spec α → List (Op α) → Bool
+  | _, [] => true
+  | s, op :: ops =>
+    (match op with | .store _ => s.cap != 0 | _ => true) && storesAvoidCapZero (s.step op).1 ops
+
+/-- every `process` of the history happens on a ring that has not wrapped: at most `cap` events pending
+    (excludes the class of F1) -/
+def flushesUnwrapped : Spec α → List (Op α) → Bool
+  | _, [] => true
+  | s, op :: ops =>
+    (match op with | .process => decide (s.pend.length ≤ s.cap) | _ => true) && flushesUnwrapped (s.step op).1 ops
+
+/-- refinement for a ring without the capacity-0 guard and/or without the index reset, on the histories that
+    avoid the corresponding class -/
+theorem Rel.run_partial {p : Params} (h3 : p.startsAtIndex = true) (h4 : p.clearsOnFlush = true)
+    (h5 : p.wrapSlack = 1) : ∀ (ops : List (Op α)) {r : Ring α} {s : Spec α}, Rel r s →
+    (p.guardsZeroCapacity = true ∨ storesAvoidCapZero s ops = true) →
+    (p.resetsIndexOnFlush = true ∨ flushesUnwrapped s ops = true) →
+    trace p r ops = Spec.trace s ops ∧ Rel (Backtrace.run p r ops) (Spec.run s ops) := by
+  intro ops
+  induction ops with
+  | nil => intro r s h _ _; exact ⟨rfl, h⟩
+  | cons op ops ih =>
+    intro r s h hg hr
+    have hg' : p.guardsZeroCapacity = true ∨ storesAvoidCapZero (s.step op).1 ops = true := by
+      cases hg with
+      | inl h => exact Or.inl h
+      | inr h => simp only [storesAvoidCapZero, Bool.and_eq_true] at h; exact Or.inr h.2
+    have hr' : p.resetsIndexOnFlush = true ∨ flushesUnwrapped (s.step op).1 ops = true := by
+      cases hr with
+      | inl h => exact Or.inl h
+      | inr h => simp only [flushesUnwrapped, Bool.and_eq_true] at h; exact Or.inr h.2
+    have hs : Rel (Backtrace.step p r op).1 (s.step op).1 ∧ (Backtrace.step p r op).2 = (s.step op).2 := by
+      cases op with
+      | store x =>
+        refine ⟨h.store ?_ h5 x, rfl⟩
+        cases hg with
+        | inl h => exact Or.inl h
+        | inr hh =>
+          simp only [storesAvoidCapZero, Bool.and_eq_true, bne_iff_ne, ne_eq] at hh
+          exact Or.inr (by rw [h.cap]; exact hh.1)
+      | process =>
+        refine ⟨h.process h3 h4 ?_, h.process_out h3⟩
+        cases hr with
+        | inl h => exact Or.inl h
+        | inr hh =>
+          simp only [flushesUnwrapped, Bool.and_eq_true, decide_eq_true_eq] at hh
+          exact Or.inr (h.idx0 hh.1)
+      | setCapacity c => exact ⟨h.setCapacity c, rfl⟩
+    have := ih hs.1 hg' hr'
+    simp only [trace, Spec.trace, Backtrace.run, Spec.run]
+    exact ⟨by rw [hs.2, this.1], this.2⟩
+
 theorem run_append (p : Params) : ∀ (a b : List (Op α)) (r : Ring α), run p r (a ++ b) = run p (run p r a) b := by
   intro a
   induction a with
